@@ -97,8 +97,7 @@ pub fn near_miss(t: &TD, rng: &mut Rng) -> Option<TD> {
         None
     }
     let r = go(t, target, &mut counter, rng)?;
-    if r.canon() == t.canon() || !td_wellformed(&r) {
-        // (an image whose index was moved past one of its own bare placeholders has the same spelling as the original)
+    if r.canon() == t.canon() {
         None
     } else {
         Some(r)
@@ -204,6 +203,50 @@ impl Hasher for Fnv {
     }
 }
 
+/// every description of `seq` is built into the same variable in turn (also as the only member of a
+/// product held in a second variable) and compared / hashed against a boxed copy built elsewhere
+fn slot_reuse_failure(seq: &[TD], hash: bool) -> Option<String> {
+    let r = observe(|| -> Option<String> {
+        let mut slot: Term = seq[0].build();
+        let mut outer: Term = Term::new_product(vec![seq[0].build()]);
+        let mut prev_canon = String::new();
+        for (i, d) in seq.iter().enumerate() {
+            slot = d.build();
+            outer = Term::new_product(vec![d.build()]);
+            let elsewhere = Box::new(d.build());
+            let outer_elsewhere = Box::new(Term::new_product(vec![d.build()]));
+            for (what, a, b) in [("the term", &slot, &*elsewhere), ("a product around the term", &outer, &*outer_elsewhere)] {
+                if hash {
+                    let (h1, h2) = (hash_with(a, DefaultHasher::new()), hash_with(b, DefaultHasher::new()));
+                    if h1 != h2 {
+                        return Some(format!("step {}: {} written over its predecessor hashes differently from an equal copy built elsewhere", i, what));
+                    }
+                    let mut set = HashSet::new();
+                    set.insert(a.clone());
+                    if !set.contains(b) {
+                        return Some(format!("step {}: HashSet{{slot}}.contains(copy) is false for {}", i, what));
+                    }
+                } else if a != b || b != a {
+                    return Some(format!("step {}: {} written over its predecessor compares unequal to an equal copy built elsewhere", i, what));
+                }
+            }
+            if !hash && i > 0 && prev_canon != d.canon() {
+                let before = seq[i - 1].build();
+                if slot == before {
+                    return Some(format!("step {}: the new content of the variable compares equal to the different term it replaced", i));
+                }
+            }
+            prev_canon = d.canon();
+        }
+        let _ = (&slot, &outer);
+        None
+    });
+    match r {
+        Obs::Ret(x) => x,
+        Obs::Panic(p) => Some(format!("panicked: {}", p)),
+    }
+}
+
 /// Returns a description of the first discrepancy for a pair expected equal (or not)
 fn check_pair(a: &Term, b: &Term, expect_equal: bool, hash: bool) -> Option<String> {
     let r = observe(|| {
@@ -305,6 +348,11 @@ enum How {
 }
 
 fn build_how(t: &TD, how: How, rng: &mut Rng) -> Option<Term> {
+    // an image whose index lies behind one of its own bare placeholders (`ImageExtension(2, [R, _, a])`) is a
+    // distinct value for the constructors but has the spelling of `ImageExtension(1, [R, _, a])`: no text builds it
+    if !td_wellformed(t) && matches!(how, How::LexFold | How::ParseAscii | How::ParseHan | How::ParseLatex) {
+        return None;
+    }
     match how {
         How::Ctor | How::Clone => Some(t.build()),
         How::Thread => {
@@ -470,6 +518,64 @@ pub fn run(ctx: &mut Ctx, hash: bool) {
         }
     }
 
+    // (0b') images that differ only in the index, with bare placeholders among the stored components
+    // between the two indices: different values (the index is a number of the constructor), although
+    // the iterator-with-placeholder sequences - and the spellings - coincide
+    for k in IMG_KINDS {
+        for n in 1..=4usize {
+            for ph in 0..n {
+                let mut kids: Vec<TD> = (0..n).map(|i| TD::word(["R", "a", "b", "c"][i])).collect();
+                kids[ph] = TD::placeholder();
+                for i in 0..=n {
+                    for j in 0..=n {
+                        idx += 1;
+                        if !ctx.mine(idx) {
+                            continue;
+                        }
+                        let (da, db) = (TD::image(k, i, kids.clone()), TD::image(k, j, kids.clone()));
+                        for wrap in 0..3 {
+                            let (wa, wb) = match wrap {
+                                0 => (da.clone(), db.clone()),
+                                1 => (TD::comp(Kind::SetExt, vec![da.clone(), TD::word("z")]), TD::comp(Kind::SetExt, vec![TD::word("z"), db.clone()])),
+                                _ => (TD::bin(Kind::Sim, da.clone(), TD::word("z")), TD::bin(Kind::Sim, TD::word("z"), db.clone())),
+                            };
+                            ctx.report.eval();
+                            ctx.report.bump("family.image-index-vs-stored-placeholder");
+                            ctx.report.nontrivial(&format!("{}≟{}", wa.canon(), wb.canon()));
+                            if let Some(w) = pair_failure(&wa, &wb, How::Ctor, How::Ctor, hash, 2, &mut rng) {
+                                report_failure(ctx, &wa, &wb, How::Ctor, How::Ctor, hash, w, "image-index", &mut rng);
+                            }
+                        }
+                    }
+                }
+            }
+        }
+    }
+
+    // (0b'') values that replace one another in the same place: a term is hashed, then overwritten (same
+    // variable, so the same address) by a different term of the same kind and size, which must hash and
+    // compare like an independently built copy of itself that lives elsewhere
+    for k in SET_KINDS.iter().chain(VEC_KINDS.iter()) {
+        for n in [1usize, 3, 16, 17, 63, 64, 65, 100, 130] {
+            idx += 1;
+            if !ctx.mine(idx) {
+                continue;
+            }
+            let mk = |p: &str| TD::comp(*k, (0..n).map(|i| TD::word(&format!("{}{}", p, i))).collect());
+            let seq = [mk("m"), mk("q"), mk("m"), mk("r")];
+            ctx.report.eval();
+            ctx.report.bump("family.overwritten-in-place");
+            ctx.report.nontrivial(&format!("slot|{}|{}", k.tag(), n));
+            if let Some(w) = slot_reuse_failure(&seq, hash) {
+                ctx.report.violate(
+                    format!("{}|slot|{}|{}", if hash { "C07" } else { "C06" }, k.tag(), w),
+                    format!("{} ({} with {} components, sequence m, q, m, r written into one variable)", w, k.tag(), n),
+                    J::obj().set("kind", "slot").set("seq", J::Arr(seq.iter().map(|t| t.to_json()).collect())).set("why", w.clone()),
+                );
+            }
+        }
+    }
+
     // (0c) atoms that share a name / number text across kinds, in one unordered group:
     // Word("12") next to Interval(12), "_" next to Word(""), the five named kinds with one name
     {
@@ -628,6 +734,13 @@ pub fn run(ctx: &mut Ctx, hash: bool) {
 }
 
 pub fn replay(ctx: &mut Ctx, d: &J, hash: bool) -> Option<()> {
+    if jstr(d, "kind").as_deref() == Some("slot") {
+        let seq: Vec<TD> = d.get("seq")?.as_arr()?.iter().filter_map(TD::from_json).collect();
+        if let Some(w) = slot_reuse_failure(&seq, hash) {
+            ctx.report.violate(format!("{}|slot|{}", if hash { "C07" } else { "C06" }, w), w, d.clone());
+        }
+        return Some(());
+    }
     let da = TD::from_json(d.get("a")?)?;
     let db = TD::from_json(d.get("b")?)?;
     let parse_how = |s: &str| match s {
